@@ -17,6 +17,32 @@ import (
 // written from the layout of the formats; a connection is rendered through ConnectionSet.String (not the formatter's
 // ConnStrFromConnProperties); texts carry symbolic ports and are compared by the solver.
 
+// zzC09Ingress: workloads w0, w1, w2 and Services + Ingress objects such that, between side 1 and side 2, the
+// ingress-controller connection of w0 changes (another service port), that of w1 is removed and that of w2 is added
+func zzC09Ingress(side int) []parser.K8sObject {
+	two := []corev1.ContainerPort{{Name: "web", ContainerPort: 8080, Protocol: corev1.ProtocolTCP}, {Name: "adm", ContainerPort: 9090, Protocol: corev1.ProtocolTCP}}
+	one := two[:1]
+	objs := []parser.K8sObject{
+		zzDeployObj("ns1", "w0", map[string]string{"app": "w0"}, two),
+		zzDeployObj("ns1", "w1", map[string]string{"app": "w1"}, one),
+		zzDeployObj("ns1", "w2", map[string]string{"app": "w2"}, one),
+	}
+	mkSvc := func(name, app string, port int32) parser.K8sObject {
+		return parser.K8sObject{Kind: parser.Service, Service: &corev1.Service{
+			TypeMeta: metav1.TypeMeta{Kind: "Service", APIVersion: "v1"}, ObjectMeta: metav1.ObjectMeta{Name: name, Namespace: "ns1"},
+			Spec: corev1.ServiceSpec{Selector: map[string]string{"app": app}, Ports: []corev1.ServicePort{{Name: "p", Port: port}}}}}
+	}
+	mkIng := func(name, svc string, port int32) parser.K8sObject {
+		return parser.K8sObject{Kind: parser.Ingress, Ingress: &netv1.Ingress{
+			TypeMeta: metav1.TypeMeta{Kind: "Ingress", APIVersion: "networking.k8s.io/v1"}, ObjectMeta: metav1.ObjectMeta{Name: name, Namespace: "ns1"},
+			Spec: netv1.IngressSpec{DefaultBackend: &netv1.IngressBackend{Service: &netv1.IngressServiceBackend{Name: svc, Port: netv1.ServiceBackendPort{Number: port}}}}}}
+	}
+	if side == 1 {
+		return append(objs, mkSvc("s0", "w0", 8080), mkIng("i0", "s0", 8080), mkSvc("s1", "w1", 8080), mkIng("i1", "s1", 8080))
+	}
+	return append(objs, mkSvc("s0", "w0", 9090), mkIng("i0", "s0", 9090), mkSvc("s2", "w2", 8080), mkIng("i2", "s2", 8080))
+}
+
 func zzC09Side(name string, variant int, withC, noB bool) []parser.K8sObject {
 	objs := []parser.K8sObject{zzNsObj("ns1", nil), zzDeployObj("ns1", "a", map[string]string{"app": "a"}, nil)}
 	if !noB {
@@ -79,6 +105,10 @@ func ZZ_C09_DiffTxtMd() {
 	wl := vf_Choose("workloads", 3) // 0 same, 1 ref2 has the new workload c, 2 ref2 lost b
 	objs1 := zzC09Side("r1", 1+vf_Choose("r1.variant", 2), false, false)
 	objs2 := zzC09Side("r2", vf_Choose("r2.variant", 3), wl == 1, wl == 2)
+	if vf_Choose("ingress", 2) == 1 {
+		objs1 = append(objs1, zzC09Ingress(1)...)
+		objs2 = append(objs2, zzC09Ingress(2)...)
+	}
 	conns1, peers1, err := connlist.ZZConnsFromObjects(connlist.NewConnlistAnalyzer(connlist.WithMuteErrsAndWarns()), objs1)
 	vf_Assert(err == nil, "list-1")
 	conns2, peers2, err := connlist.ZZConnsFromObjects(connlist.NewConnlistAnalyzer(connlist.WithMuteErrsAndWarns()), objs2)
@@ -90,15 +120,20 @@ func ZZ_C09_DiffTxtMd() {
 		return
 	}
 	cats := [][]zzDiffLine{zzC09Lines(d.ChangedConnections(), ChangedType), zzC09Lines(d.AddedConnections(), AddedType), zzC09Lines(d.RemovedConnections(), RemovedType)}
+	// per category the lines are sorted; the lines whose source is the ingress controller follow all the others
 	render := func(f func(l zzDiffLine) string) []string {
 		var all []string
-		for _, c := range cats {
-			var ls []string
-			for _, l := range c {
-				ls = append(ls, f(l))
+		for _, ingress := range []bool{false, true} {
+			for _, c := range cats {
+				var ls []string
+				for _, l := range c {
+					if (l.src == "{ingress-controller}") == ingress {
+						ls = append(ls, f(l))
+					}
+				}
+				sort.Strings(ls)
+				all = append(all, ls...)
 			}
-			sort.Strings(ls)
-			all = append(all, ls...)
 		}
 		return all
 	}
